@@ -312,6 +312,16 @@ def drop_placeholders(term):
     if term[2] != b or g not in notnone_forms(b):
         return term
     d = b[3]
+    if d[0] == 'accum' and d[1] == ('list', ()) and len(d[2]) >= 2 and all(e_[0] == 'append' for e_ in d[2]):
+        # append(pair) for the selected pairs of a row, append(None) for a row without one: the placeholders vanish, and a
+        # kept element that was dereferenced by its own guard (pair.lp_var...) is certainly not None
+        kept = [e_ for e_ in d[2] if e_[2] != NONE]
+        if len(kept) == 1:
+            _, _, val, ch = kept[0]
+            derefd = val[0] == 'bvar' and any(contains(g_, lambda x: x[0] == 'attr' and x[1] == val) for _, g_ in ch)
+            if derefd and any(b_ == val for b_, _ in ch):
+                return ('comp', tuple(ch), val)
+        return term
     if not (d[0] == 'accum' and d[1] == ('list', ()) and len(d[2]) == 1 and d[2][0][0] == 'extend'):
         return term
     op, _, L, ch = d[2][0]
@@ -401,4 +411,26 @@ def scatter_size_problems(t, seen=None):
                     txt = 'a list with one slot per %s (%s) is filled at %s' % (_SORT_NAME[have], show(x[1]), show(key))
                     if txt not in out:
                         out.append(txt)
+    return out
+
+
+def returns_as_called(repo, func, selfterm):
+    """What `func` returns at each of its call sites inside Model.get_results, with the arguments passed there
+    (a helper merged from two functions with a flag parameter is judged as it is used, not for a symbolic flag).
+    -> list of return terms; [] when it takes no argument besides self, is not called from there, or the caller is
+    outside the interpreted fragment (the stand-alone run is then the reference)."""
+    from .absint import Interp, iter_effects
+    if len([p_ for p_ in func.params if p_ != 'self']) == 0:
+        return []
+    gr = repo.method('Model', 'get_results', required=False)
+    if gr is None:
+        return []
+    try:
+        effs, _ = Interp(repo).run(gr, {p_: S(p_) for p_ in gr.params[1:]}, selfterm=selfterm)
+    except Unknown:
+        return []
+    out = []
+    for e, _c in iter_effects(effs):
+        if e.kind == 'call' and e.target is func and isinstance(getattr(e, 'ret', None), tuple) and e.ret not in out:
+            out.append(e.ret)
     return out
